@@ -46,6 +46,43 @@ PROPS = {
         "design_ref": "DESIGN.md section 4, C10",
         "assumptions": ["input bytes 0..255", "a substitution of the first start delimiter by another valid delimiter is outside the single-byte clause (DESIGN 4.0)"],
     },
+    "C02": {
+        "claimed": True,
+        "coq": "Properties/C02.v",
+        "domains": ["las"],
+        "nontrivial": ["disc:n", "step:W:D", "step:W:V", "step:W:L", "step:N", "step:R"],
+        "rule": "cases = operation sequences on one TokenRing (own address, then W sa da / C / N a / R a), observed after EVERY operation "
+                "(las_state from Debug, ready_for_ring, NS, PS, LAS): all 256 own addresses; exhaustive sequences up to length 3-6 over small "
+                "address alphabets incl. 0, 125, 126..128, 255; random rings (1..126 members, 0 and 125 forced in, two-station rings) discovered "
+                "from an ignored prefix + wrap-around + two rotations, then further rotations, leaves, joins, own passes, GAP results "
+                "(set_next_station / remove_station), invalid addresses, claims; random operation soup. Deduplicated. Non-trivial = discovery cases "
+                "accepted by the Coq shape predicate plus every witnessed pass in Discovery/Verification/Valid and every N/R step",
+        "trusted_base": [
+            "hand model coq/Model/TokenRing.v of src/fdl/token_ring.rs (bit array of 128 as list bool, every index/range panic site, Debug impl), "
+            "tied by differential execution after every operation on this run's cases",
+            "bitvec BitArray semantics as used: set/index/range-slice panic outside 0..128, fill, any, iter_ones ascending",
+        ],
+        "technique": "Coq proof (LAS discovery / verification / live update theorems over a Gallina model of token_ring.rs, all rings, all own "
+                     "addresses, all initial LAS contents) + differential correspondence model vs crate after every operation",
+        "partial_gap": "global half (N-station timed composition: convergence within a bounded time, token once per rotation in address order) "
+                       "is not proved; only the per-station LAS data structure theorems are",
+        "level_text": "PARTIAL: only the per-station data-structure half of C02 is proved; the global half (N-station timed composition: "
+                      "convergence within a bounded time, every station receiving the token once per rotation in address order) is NOT proved. "
+                      "Proved (Coq 8.16.1, closed under the global context) about the Gallina model of fdl::TokenRing, for every ring R (strictly "
+                      "increasing addresses 0..125), every own address and every initial LAS content: after the wrap-around and two rotations of R a "
+                      "listening station is Valid with LAS = R exactly and NS/PS the cyclic neighbours of TS; Valid is reached by listening only through a "
+                      "verification rotation in which every pass verified against the LAS frozen at the end of discovery; an established LAS is unchanged "
+                      "by further passes of R; a skipped station is removed exactly, a newcomer's pass adds exactly it; addresses > 125 are ignored; no panic "
+                      "for any byte; NS/PS always are the cyclic neighbours of TS in the LAS. The model is tied to the crate on every run by replaying "
+                      "~10^5 operation sequences on both and comparing the full observable state after every operation; the theorems' boolean "
+                      "oracles also run on the crate's outputs.",
+        "level_note": "Trusted: Coq kernel, extraction + OCaml driver, Rust harness, the verif-hooks wrapper (forwarding only); hand model validated "
+                      "differentially, not verified, against token_ring.rs. The global ring-formation claim of C02 is outside this check.",
+        "design_ref": "DESIGN.md section 4, C02 (data-structure half) - LAS; global half: section 4 'C02 (global half), C06'",
+        "assumptions": ["own address 0..125 for the discovery/stability theorems (0..127 for no-panic)", "witnessed addresses are bytes 0..255",
+                        "set_next_station / remove_station arguments < 128 (the FDL layer only passes addresses < HSA <= 126)",
+                        "the LAS bit array has 128 entries (BitArr!(for 128))"],
+    },
 }
 
 NOT_CLAIMED = {}
